@@ -127,7 +127,20 @@ func c03(c *Ctx) {
 			return res{skipped: "unformattable"}
 		}
 		if _, err, _ := parseIn(out, j.lang); err != nil {
-			return res{skipped: "formatted-output-does-not-parse (C01)"}
+			// The round trip is C01's property, but text that no longer parses also no longer does what the
+			// script did: ask bash, which runs whatever it is given (seeded change C03-3: a `<<-` delimiter
+			// written with spaces swallows the rest of the file).  Equal behaviour under bash = C01's business only.
+			b1 := runShell(c, "bash", j.src)
+			b2 := runShell(c, "bash", out)
+			for retry := 0; retry < 2 && !b1.TimedOut && !b2.TimedOut && !c03Same(b1, b2); retry++ {
+				b1 = runShell(c, "bash", j.src)
+				b2 = runShell(c, "bash", out)
+			}
+			if !b1.TimedOut && !b2.TimedOut && !c03Same(b1, b2) {
+				w := fmt.Sprintf("%s %s %s", j.f.name, langName(j.lang), hx(j.src))
+				return res{fails: []Failure{{Witness: "bash " + w, What: fmt.Sprintf("the formatted text (%s) no longer parses (%v) and bash runs it differently: original gives status %d stdout %q; formatted gives status %d stdout %q; formatted text: %q", j.f.name, err, b1.Status, clip(b1.Stdout), b2.Status, clip(b2.Stdout), clip(out))}}}
+			}
+			return res{skipped: "formatted-output-does-not-parse (C01), same under bash"}
 		}
 		var r res
 		o1 := runInterp(c, j.lang, j.src)
